@@ -37,6 +37,10 @@ def install():
     import pyvolutionary.hypertuner as hypertuner
     import pyvolutionary.multitask as multitask
 
+    import warnings
+    warnings.simplefilter("ignore")          # numpy RuntimeWarnings of the library under test are not our output
+    import numpy as _np
+    _np.seterr(all="ignore")
     rng.install()
     helpers.parallel = pools.NAMESPACE
     hypertuner.parallel = pools.NAMESPACE
